@@ -1,6 +1,972 @@
-//! C13 — not built yet.
+//! C13 — def namespace queries agree with the subtype graph.
+//!
+//! A case is a defs grid + query symbols + records + base symbols, all in the input string:
+//!   `g <nrows> {row}* q <k> {hexname}* r <k> {<ntags> {<hextag> <0|1>}*}* b <k> {hexname}*`
+//!   row = `<s|x|n> [hexname]  <l|y|n> [<n> {hexname|-}* | hexname]`
+//!         (def is a Symbol / a Str / absent;  is is a List / a single Symbol / absent; `-` = a non-Symbol item)
+//! or a slice of the real database: `zinc <lo> <hi> <nrec> <seed>` (symbols lo..hi of tests/defs/defs.zinc in
+//! sorted order, fits against ALL its symbols, plus <nrec> records derived from <seed>).
+//!
+//! For every query symbol the real `Namespace` answers supertypes_of, all_supertypes_of, subtypes_of,
+//! all_subtypes_of, inheritance, choices_for, conjuncts_defs and fits against every symbol of the universe;
+//! for every record reflect().defs, Reflection::fits(base) and the filter `^base`.  Each answer goes
+//! (a) to the Lean model as a correspondence request (`C13 sym ..`, `C13 refl ..`; sorted name lists) and
+//! (b) against an independent closure oracle (plain DFS over the `is` lists) written here.
+
 use crate::ctx::{CaseOut, Ctx};
+use crate::rng::Rng;
+use crate::vx;
+use libhaystack::defs::namespace::{DefDict, Namespace};
+use libhaystack::filter::eval::{Eval, EvalContext};
+use libhaystack::filter::Filter;
+use libhaystack::val::*;
+use std::collections::{BTreeMap, BTreeSet};
+use std::sync::OnceLock;
 
-pub fn exec(_label: &str, _input: &str, _out: &mut CaseOut) {}
+// ------------------------------------------------------------------------------------------------
+// grid rows as generated / transmitted
+// ------------------------------------------------------------------------------------------------
+#[derive(Clone, Debug)]
+pub enum DefTag {
+    Sym(String),
+    Other(String),
+    Absent,
+}
+#[derive(Clone, Debug)]
+pub enum IsTag {
+    List(Vec<Option<String>>),
+    Single(String),
+    Absent,
+}
+#[derive(Clone, Debug)]
+pub struct RowSpec {
+    pub def: DefTag,
+    pub is: IsTag,
+    /// further tags of the def dict (relationship / association tags for C14), symbol valued or marker
+    pub extra: Vec<(String, Option<String>)>,
+}
 
-pub fn generate(_ctx: &mut Ctx) {}
+impl RowSpec {
+    pub fn plain(name: &str, is: Vec<Option<String>>) -> RowSpec {
+        RowSpec { def: DefTag::Sym(name.to_string()), is: IsTag::List(is), extra: vec![] }
+    }
+    /// what the model sees: (def symbol, items of the is list)
+    pub fn model_view(&self) -> (Option<String>, Vec<Option<String>>) {
+        let n = match &self.def {
+            DefTag::Sym(s) => Some(s.clone()),
+            _ => None,
+        };
+        let items = match &self.is {
+            IsTag::List(l) => l.clone(),
+            _ => vec![],
+        };
+        (n, items)
+    }
+    pub fn to_dict(&self) -> Dict {
+        let mut d = Dict::new();
+        match &self.def {
+            DefTag::Sym(s) => {
+                d.insert("def".into(), Value::make_symbol(s));
+            }
+            DefTag::Other(s) => {
+                d.insert("def".into(), Value::make_str(s));
+            }
+            DefTag::Absent => {}
+        }
+        match &self.is {
+            IsTag::List(l) => {
+                let items: Vec<Value> = l
+                    .iter()
+                    .enumerate()
+                    .map(|(i, it)| match it {
+                        Some(s) => Value::make_symbol(s),
+                        None => {
+                            if i % 2 == 0 {
+                                Value::make_str("notASymbol")
+                            } else {
+                                Value::make_int(i as i64)
+                            }
+                        }
+                    })
+                    .collect();
+                d.insert("is".into(), Value::make_list(items));
+            }
+            IsTag::Single(s) => {
+                d.insert("is".into(), Value::make_symbol(s));
+            }
+            IsTag::Absent => {}
+        }
+        d.insert("doc".into(), Value::make_str("generated"));
+        for (k, v) in &self.extra {
+            match v {
+                // `tagOn` is a list of symbols
+                Some(s) if k == "tagOn" => d.insert(k.clone(), Value::make_list(vec![Value::make_symbol(s)])),
+                Some(s) => d.insert(k.clone(), Value::make_symbol(s)),
+                None => d.insert(k.clone(), Value::make_marker()),
+            };
+        }
+        d
+    }
+}
+
+pub fn write_rows(rows: &[RowSpec], out: &mut Vec<String>) {
+    out.push(rows.len().to_string());
+    for r in rows {
+        match &r.def {
+            DefTag::Sym(s) => {
+                out.push("s".into());
+                out.push(vx::h(s));
+            }
+            DefTag::Other(s) => {
+                out.push("x".into());
+                out.push(vx::h(s));
+            }
+            DefTag::Absent => out.push("n".into()),
+        }
+        match &r.is {
+            IsTag::List(l) => {
+                out.push("l".into());
+                out.push(l.len().to_string());
+                for it in l {
+                    out.push(vx::ho(it));
+                }
+            }
+            IsTag::Single(s) => {
+                out.push("y".into());
+                out.push(vx::h(s));
+            }
+            IsTag::Absent => out.push("n".into()),
+        }
+        out.push(r.extra.len().to_string());
+        for (k, v) in &r.extra {
+            out.push(vx::h(k));
+            out.push(vx::ho(v));
+        }
+    }
+}
+
+pub fn read_rows(rd: &mut vx::Rd) -> Option<Vec<RowSpec>> {
+    let n: usize = rd.num()?;
+    let mut rows = Vec::with_capacity(n);
+    for _ in 0..n {
+        let def = match rd.tok()? {
+            "s" => DefTag::Sym(rd.hs()?),
+            "x" => DefTag::Other(rd.hs()?),
+            "n" => DefTag::Absent,
+            _ => return None,
+        };
+        let is = match rd.tok()? {
+            "l" => {
+                let k: usize = rd.num()?;
+                let mut v = Vec::with_capacity(k);
+                for _ in 0..k {
+                    v.push(rd.hos()?);
+                }
+                IsTag::List(v)
+            }
+            "y" => IsTag::Single(rd.hs()?),
+            "n" => IsTag::Absent,
+            _ => return None,
+        };
+        let ne: usize = rd.num()?;
+        let mut extra = Vec::new();
+        for _ in 0..ne {
+            let k = rd.hs()?;
+            let v = rd.hos()?;
+            extra.push((k, v));
+        }
+        rows.push(RowSpec { def, is, extra });
+    }
+    Some(rows)
+}
+
+pub fn read_names(rd: &mut vx::Rd) -> Option<Vec<String>> {
+    let n: usize = rd.num()?;
+    (0..n).map(|_| rd.hs()).collect()
+}
+pub fn write_names(names: &[String], out: &mut Vec<String>) {
+    out.push(names.len().to_string());
+    for n in names {
+        out.push(vx::h(n));
+    }
+}
+
+pub type RecSpec = Vec<(String, bool)>;
+
+pub fn read_recs(rd: &mut vx::Rd) -> Option<Vec<RecSpec>> {
+    let n: usize = rd.num()?;
+    let mut recs = Vec::new();
+    for _ in 0..n {
+        let k: usize = rd.num()?;
+        let mut r = Vec::new();
+        for _ in 0..k {
+            let name = rd.hs()?;
+            let m: u8 = rd.num()?;
+            r.push((name, m != 0));
+        }
+        recs.push(r);
+    }
+    Some(recs)
+}
+pub fn write_recs(recs: &[RecSpec], out: &mut Vec<String>) {
+    out.push(recs.len().to_string());
+    for r in recs {
+        out.push(r.len().to_string());
+        for (k, m) in r {
+            out.push(vx::h(k));
+            out.push((*m as u8).to_string());
+        }
+    }
+}
+pub fn rec_dict(r: &RecSpec) -> Dict {
+    let mut d = Dict::new();
+    for (i, (k, m)) in r.iter().enumerate() {
+        let v = if *m {
+            Value::make_marker()
+        } else if i % 2 == 0 {
+            Value::make_int(7)
+        } else {
+            Value::make_str("v")
+        };
+        d.insert(k.clone(), v);
+    }
+    d
+}
+
+/// the graph as the model's request tokens: `<nrows> {<def|-> <nis> {<item|->}*}*`
+pub fn model_graph_tokens(rows: &[RowSpec]) -> String {
+    let mut t = vec![rows.len().to_string()];
+    for r in rows {
+        let (n, items) = r.model_view();
+        t.push(vx::ho(&n));
+        t.push(items.len().to_string());
+        for it in &items {
+            t.push(vx::ho(it));
+        }
+    }
+    t.join(" ")
+}
+
+pub fn build_ns(rows: &[RowSpec]) -> &'static Namespace<'static> {
+    let grid = Grid::make_from_dicts(rows.iter().map(|r| r.to_dict()).collect());
+    Box::leak(Box::new(Namespace::make(grid)))
+}
+/// give the memory of a leaked namespace back (no reference to it may be alive)
+pub unsafe fn free_ns(ns: &'static Namespace<'static>) {
+    drop(Box::from_raw(ns as *const Namespace<'static> as *mut Namespace<'static>));
+}
+
+// ------------------------------------------------------------------------------------------------
+// the oracle: the graph of the `is` lists, closures by plain DFS
+// ------------------------------------------------------------------------------------------------
+pub struct Oracle {
+    /// def symbol -> Symbol items of its `is` list (last row wins)
+    pub is: BTreeMap<String, Vec<String>>,
+    /// symbol -> defs listing it (one entry per occurrence)
+    pub subs: BTreeMap<String, Vec<String>>,
+}
+
+impl Oracle {
+    pub fn new(rows: &[RowSpec]) -> Oracle {
+        let mut is = BTreeMap::new();
+        for r in rows {
+            let (n, items) = r.model_view();
+            if let Some(n) = n {
+                is.insert(n, items.into_iter().flatten().collect::<Vec<String>>());
+            }
+        }
+        let mut subs: BTreeMap<String, Vec<String>> = BTreeMap::new();
+        for (d, items) in &is {
+            for b in items {
+                subs.entry(b.clone()).or_default().push(d.clone());
+            }
+        }
+        Oracle { is, subs }
+    }
+    pub fn defined(&self, s: &str) -> bool {
+        self.is.contains_key(s)
+    }
+    pub fn sup(&self, s: &str) -> Vec<String> {
+        let mut v: Vec<String> = self.is.get(s).map_or(vec![], |l| l.iter().filter(|b| self.defined(b)).cloned().collect());
+        v.sort();
+        v
+    }
+    pub fn sub(&self, s: &str) -> Vec<String> {
+        let mut v = self.subs.get(s).cloned().unwrap_or_default();
+        v.sort();
+        v
+    }
+    /// strict ancestors: DFS with a visited set
+    pub fn all_sup(&self, s: &str) -> BTreeSet<String> {
+        let mut seen = BTreeSet::new();
+        let mut todo: Vec<String> = self.sup(s);
+        while let Some(x) = todo.pop() {
+            if seen.insert(x.clone()) {
+                todo.extend(self.sup(&x));
+            }
+        }
+        seen
+    }
+    pub fn all_sub(&self, s: &str) -> BTreeSet<String> {
+        let mut seen = BTreeSet::new();
+        let mut todo: Vec<String> = self.sub(s);
+        while let Some(x) = todo.pop() {
+            if seen.insert(x.clone()) {
+                todo.extend(self.sub(&x));
+            }
+        }
+        seen
+    }
+    pub fn inheritance(&self, s: &str) -> BTreeSet<String> {
+        if !self.defined(s) {
+            return BTreeSet::new();
+        }
+        let mut v = self.all_sup(s);
+        v.insert(s.to_string());
+        v
+    }
+    pub fn fits(&self, a: &str, b: &str) -> bool {
+        self.defined(a) && self.defined(b) && (a == b || self.all_sup(a).contains(b))
+    }
+    pub fn choices(&self, s: &str, raw_has_choice: bool) -> Vec<String> {
+        if self.defined(s) && raw_has_choice {
+            self.sub(s)
+        } else {
+            vec![]
+        }
+    }
+    pub fn conj(&self, s: &str) -> Vec<String> {
+        let mut v: Vec<String> = s.split('-').filter(|p| self.defined(p)).map(|p| p.to_string()).collect();
+        v.sort();
+        v
+    }
+    /// the statement's reflection: defs of the tags, of every conjunct whose parts are all marker tags, and
+    /// all their supertypes
+    pub fn reflect(&self, rec: &RecSpec) -> BTreeSet<String> {
+        let markers: BTreeSet<&str> = rec.iter().filter(|(_, m)| *m).map(|(k, _)| k.as_str()).collect();
+        let mut seeds: Vec<String> = rec.iter().filter(|(k, _)| self.defined(k)).map(|(k, _)| k.clone()).collect();
+        for c in self.is.keys() {
+            if c.contains('-') && c.split('-').all(|p| markers.contains(p)) {
+                seeds.push(c.clone());
+            }
+        }
+        let mut out = BTreeSet::new();
+        for s in seeds {
+            out.extend(self.all_sup(&s));
+            out.insert(s);
+        }
+        out
+    }
+    /// loop iterations of all_supertypes_of / all_subtypes_of (number of stacked vectors), saturating
+    pub fn cost(&self, cap: u64) -> u64 {
+        // paths counted by memoised DFS (the graph is acyclic by construction)
+        fn up(o: &Oracle, s: &str, memo: &mut BTreeMap<String, u64>, cap: u64) -> u64 {
+            if let Some(v) = memo.get(s) {
+                return *v;
+            }
+            let mut c: u64 = 0;
+            for b in o.sup(s) {
+                c = c.saturating_add(1).saturating_add(up(o, &b, memo, cap)).min(cap);
+            }
+            memo.insert(s.to_string(), c);
+            c
+        }
+        fn down(o: &Oracle, s: &str, memo: &mut BTreeMap<String, u64>, cap: u64) -> u64 {
+            if let Some(v) = memo.get(s) {
+                return *v;
+            }
+            let mut c: u64 = 0;
+            for b in o.sub(s) {
+                c = c.saturating_add(1).saturating_add(down(o, &b, memo, cap)).min(cap);
+            }
+            memo.insert(s.to_string(), c);
+            c
+        }
+        let mut m1 = BTreeMap::new();
+        let mut m2 = BTreeMap::new();
+        let mut total: u64 = 0;
+        let mut keys: BTreeSet<String> = self.is.keys().cloned().collect();
+        keys.extend(self.subs.keys().cloned());
+        for k in keys {
+            total = total.saturating_add(up(self, &k, &mut m1, cap)).saturating_add(down(self, &k, &mut m2, cap));
+        }
+        total
+    }
+}
+
+// ------------------------------------------------------------------------------------------------
+// answers of the real namespace, canonicalised
+// ------------------------------------------------------------------------------------------------
+pub fn names<'x, I: IntoIterator<Item = &'x Dict>>(it: I) -> Vec<String> {
+    let mut v: Vec<String> = it.into_iter().map(|d| d.def_name().clone()).collect();
+    v.sort();
+    v
+}
+pub fn show(v: &[String]) -> String {
+    v.iter().map(|s| vx::h(s)).collect::<Vec<_>>().join(",")
+}
+fn set_vec(s: &BTreeSet<String>) -> Vec<String> {
+    s.iter().cloned().collect()
+}
+
+struct SymAns {
+    sup: Vec<String>,
+    asup: Vec<String>,
+    sub: Vec<String>,
+    asub: Vec<String>,
+    inh: Vec<String>,
+    cho: Vec<String>,
+    conj: Vec<String>,
+    fits: Vec<String>,
+}
+
+fn ask(ns: &'static Namespace<'static>, q: &str, universe: &[String]) -> SymAns {
+    let sym = Symbol::from(q);
+    let sup = names(ns.supertypes_of(&sym).iter().copied());
+    let asup = names(ns.all_supertypes_of(&sym));
+    let sub = names(ns.subtypes_of(&sym).iter());
+    let asub = names(ns.all_subtypes_of(&sym));
+    let inh = names(ns.inheritance(&sym).iter().copied());
+    let cho = names(ns.choices_for(&sym).iter());
+    let conj = names(ns.conjuncts_defs(&sym));
+    let mut fits: Vec<String> = universe.iter().filter(|u| ns.fits(&sym, &Symbol::from(u.as_str()))).cloned().collect();
+    fits.sort();
+    SymAns { sup, asup, sub, asub, inh, cho, conj, fits }
+}
+
+fn sym_reply(a: &SymAns) -> String {
+    format!(
+        "sup={}|asup={}|sub={}|asub={}|inh={}|cho={}|conj={}|fits={}",
+        show(&a.sup),
+        show(&a.asup),
+        show(&a.sub),
+        show(&a.asub),
+        show(&a.inh),
+        show(&a.cho),
+        show(&a.conj),
+        show(&a.fits)
+    )
+}
+
+fn raw_has_choice(rows: &[RowSpec], s: &str) -> bool {
+    // last row with this def symbol wins
+    let mut res = false;
+    for r in rows {
+        if let (Some(n), items) = r.model_view() {
+            if n == s {
+                res = items.iter().any(|it| it.as_deref() == Some("choice"));
+            }
+        }
+    }
+    res
+}
+
+fn filter_symbol_ok(s: &str) -> bool {
+    let mut cs = s.chars();
+    match cs.next() {
+        Some(c) if c.is_ascii_lowercase() => {}
+        _ => return false,
+    }
+    s.chars().all(|c| c.is_ascii_alphanumeric() || c == '_' || c == ':' || c == '-')
+}
+
+fn sorted_fits(refl: &libhaystack::defs::reflection::Reflection, bases: &[String]) -> Vec<String> {
+    let mut v: Vec<String> = bases.iter().filter(|b| refl.fits(&Symbol::from(b.as_str()))).cloned().collect();
+    v.sort();
+    v
+}
+
+/// run every query of one case; `check_conj_scope`: the records only use conjuncts with defined parts
+fn run_queries(
+    rows: &[RowSpec],
+    ns: &'static Namespace<'static>,
+    queries: &[String],
+    universe: &[String],
+    recs: &[RecSpec],
+    bases: &[String],
+    conj_parts_defined: bool,
+    out: &mut CaseOut,
+) {
+    let o = Oracle::new(rows);
+    let graph = model_graph_tokens(rows);
+    // ---- symbols ---------------------------------------------------------------------------
+    let mut replies = Vec::new();
+    for q in queries {
+        let a = ask(ns, q, universe);
+        let chk = |kind: &str, got: &Vec<String>, want: Vec<String>, out: &mut CaseOut| {
+            if *got != want {
+                out.fail(kind, format!("symbol {q:?}: namespace {got:?}, graph {want:?}"));
+            }
+        };
+        chk("oracle_supertypes", &a.sup, o.sup(q), out);
+        chk("oracle_all_supertypes", &a.asup, set_vec(&o.all_sup(q)), out);
+        chk("oracle_subtypes", &a.sub, o.sub(q), out);
+        chk("oracle_all_subtypes", &a.asub, set_vec(&o.all_sub(q)), out);
+        chk("oracle_inheritance", &a.inh, set_vec(&o.inheritance(q)), out);
+        chk("oracle_choices", &a.cho, o.choices(q, raw_has_choice(rows, q)), out);
+        chk("oracle_conjuncts", &a.conj, o.conj(q), out);
+        let mut want_fits: Vec<String> = universe.iter().filter(|u| o.fits(q, u)).cloned().collect();
+        want_fits.sort();
+        chk("oracle_fits", &a.fits, want_fits, out);
+        if ns.has(&Symbol::from(q.as_str())) != o.defined(q) {
+            out.fail("oracle_defined", format!("symbol {q:?}: has() = {}", !o.defined(q)));
+        }
+        if !a.asup.is_empty() {
+            out.stat("has_supertypes");
+        }
+        if a.asup.len() > a.sup.len() {
+            out.stat("transitive_supertypes");
+        }
+        if q.contains('-') && o.defined(q) {
+            out.stat("conjunct_def");
+        }
+        if !o.defined(q) && !a.sub.is_empty() {
+            out.stat("undefined_with_subtypes");
+        }
+        replies.push(sym_reply(&a));
+    }
+    if !queries.is_empty() {
+        let mut t = vec![];
+        write_names(queries, &mut t);
+        write_names(universe, &mut t);
+        out.req(format!("C13 sym {graph} {}", t.join(" ")), format!("ok {}", replies.join(";")));
+    }
+    // ---- records ---------------------------------------------------------------------------
+    let mut rreplies = Vec::new();
+    for r in recs {
+        let d = rec_dict(r);
+        let refl = ns.reflect(&d);
+        let got = names(refl.defs.iter().copied());
+        let want = set_vec(&o.reflect(r));
+        if !conj_parts_defined {
+            // out of the property's scope (a conjunct def with an undefined part): only the model
+            // correspondence below is checked; what the code does is counted
+            out.stat(if got == want { "scope_conjunct_undefined_part_reflected" } else { "scope_conjunct_undefined_part_not_reflected" });
+            rreplies.push(format!(
+                "defs={}|fits={}",
+                show(&got),
+                show(&sorted_fits(&refl, bases))
+            ));
+            continue;
+        }
+        if got != want {
+            out.fail("oracle_reflect", format!("record {r:?}: reflect {got:?}, graph {want:?}"));
+        }
+        let wantset: BTreeSet<&String> = want.iter().collect();
+        let mut fit = Vec::new();
+        for b in bases {
+            let f = refl.fits(&Symbol::from(b.as_str()));
+            // `^b` matches exactly the records having a tag or conjunct that fits b
+            let want_f = o.defined(b) && wantset.contains(b);
+            if f != want_f {
+                out.fail("oracle_reflection_fits", format!("record {r:?} base {b:?}: fits {f}, graph {want_f}"));
+            }
+            if filter_symbol_ok(b) {
+                match Filter::try_from(format!("^{b}").as_str()) {
+                    Ok(flt) => {
+                        let cx = EvalContext::make(&d, ns, &d);
+                        let e = flt.eval(&cx);
+                        if e != want_f {
+                            out.fail("oracle_filter_isa", format!("record {r:?} filter ^{b}: eval {e}, graph {want_f}"));
+                        }
+                        out.stat("filter_isa_evaluated");
+                    }
+                    Err(_) => out.stat("filter_isa_unparsable"),
+                }
+            }
+            if f {
+                fit.push(b.clone());
+            }
+        }
+        fit.sort();
+        if !got.is_empty() {
+            out.stat("record_reflects_defs");
+        }
+        if got.iter().any(|n| n.contains('-')) {
+            out.stat("record_reflects_conjunct");
+        }
+        rreplies.push(format!("defs={}|fits={}", show(&got), show(&fit)));
+    }
+    if !recs.is_empty() {
+        let mut t = vec![];
+        write_recs(recs, &mut t);
+        write_names(bases, &mut t);
+        out.req(format!("C13 refl {graph} {}", t.join(" ")), format!("ok {}", rreplies.join(";")));
+    }
+}
+
+// ------------------------------------------------------------------------------------------------
+// generators
+// ------------------------------------------------------------------------------------------------
+const WORDS: &[&str] = &[
+    "marker", "entity", "equip", "ahu", "site", "point", "hot", "water", "air", "temp", "sensor", "lib", "filetype",
+    "phenomenon", "substance", "val", "zone", "elec", "meter", "chilled", "plant", "space", "cool", "heat", "fan",
+    "valve", "cmd", "sp", "tüv", "x", "a1", "b_2", "relationship", "association",
+];
+const UNDEF: &[&str] = &["u0", "u1", "undefinedThing", "u-v", "ghost:key"];
+
+pub struct GenGraph {
+    pub rows: Vec<RowSpec>,
+    /// defined names in rank order (every `is` item of a def is of lower rank or never defined)
+    pub defined: Vec<String>,
+}
+
+/// random ACYCLIC taxonomy: defs are created in rank order and only list lower ranks (or never-defined
+/// names), so every row - duplicates included - respects one topological numbering.
+pub fn gen_graph(rng: &mut Rng, max_defs: u64) -> GenGraph {
+    loop {
+        let g = gen_graph_once(rng, max_defs);
+        // the traversals re-expand a def once per path: keep the path count moderate
+        if Oracle::new(&g.rows).cost(1 << 40) < 150_000 {
+            return g;
+        }
+    }
+}
+
+fn gen_graph_once(rng: &mut Rng, max_defs: u64) -> GenGraph {
+    let n = 1 + rng.below(max_defs) as usize;
+    let mut defined: Vec<String> = Vec::new();
+    let mut rows: Vec<RowSpec> = Vec::new();
+    let choice_defined = rng.chance(1, 2);
+    if choice_defined {
+        defined.push("choice".into());
+        rows.push(RowSpec::plain("choice", if rng.chance(1, 2) { vec![] } else { vec![Some("u0".into())] }));
+    }
+    let mut fresh = 0;
+    let pick_sups = |rng: &mut Rng, upto: usize, defined: &Vec<String>, allow_choice: bool| -> Vec<Option<String>> {
+        let k = *rng.pick(&[0u64, 1, 1, 1, 1, 2, 2, 2, 3, 4]);
+        let mut items: Vec<Option<String>> = Vec::new();
+        for _ in 0..k {
+            if upto == 0 {
+                break;
+            }
+            // bias towards recent defs (deep chains) and towards the roots (wide diamonds)
+            let j = match rng.below(3) {
+                0 => upto - 1 - (rng.below(upto.min(3) as u64) as usize),
+                1 => rng.below(upto.min(3) as u64) as usize,
+                _ => rng.below(upto as u64) as usize,
+            };
+            items.push(Some(defined[j].clone()));
+        }
+        if rng.chance(15, 100) {
+            items.push(Some(rng.pick(UNDEF).to_string()));
+        }
+        if rng.chance(8, 100) {
+            let at = rng.below(items.len() as u64 + 1) as usize;
+            items.insert(at, None);
+        }
+        if !items.is_empty() && rng.chance(6, 100) {
+            let dup = items[rng.below(items.len() as u64) as usize].clone();
+            items.push(dup);
+        }
+        if allow_choice && rng.chance(10, 100) {
+            items.push(Some("choice".into()));
+        }
+        items
+    };
+    for _ in 0..n {
+        let plain: Vec<String> = defined.iter().filter(|d| !d.contains('-') && !d.contains(':')).cloned().collect();
+        let kind = rng.below(100);
+        let name = if kind < 14 && plain.len() >= 2 {
+            // conjunct of 2-3 DEFINED parts
+            let k = 2 + rng.below(2) as usize;
+            (0..k).map(|_| rng.pick(&plain).clone()).collect::<Vec<_>>().join("-")
+        } else if kind < 24 {
+            let f = *rng.pick(&["lib", "filetype", "unit", "ghost"]);
+            format!("{f}:{}", rng.pick(WORDS))
+        } else if kind < 80 {
+            rng.pick(WORDS).to_string()
+        } else {
+            fresh += 1;
+            format!("t{fresh}{}", if rng.chance(1, 3) { "Tag" } else { "" })
+        };
+        if defined.contains(&name) || name == "choice" || UNDEF.contains(&name.as_str()) {
+            continue;
+        }
+        let upto = defined.len();
+        let items = pick_sups(rng, upto, &defined, true);
+        let is = match rng.below(100) {
+            0..=4 => IsTag::Absent,
+            5..=8 => IsTag::Single(if upto > 0 { defined[rng.below(upto as u64) as usize].clone() } else { "u0".into() }),
+            _ => IsTag::List(items),
+        };
+        rows.push(RowSpec { def: DefTag::Sym(name.clone()), is, extra: vec![] });
+        defined.push(name);
+    }
+    // duplicate rows (BTreeMap: the last one wins) - each respects the rank of its name
+    let ndup = rng.below(3);
+    for _ in 0..ndup {
+        if defined.is_empty() {
+            break;
+        }
+        let j = rng.below(defined.len() as u64) as usize;
+        let items = pick_sups(rng, j, &defined, defined[j] != "choice");
+        rows.push(RowSpec { def: DefTag::Sym(defined[j].clone()), is: IsTag::List(items), extra: vec![] });
+    }
+    // rows that make() drops
+    if rng.chance(1, 4) {
+        rows.push(RowSpec { def: DefTag::Absent, is: IsTag::List(vec![Some("marker".into())]), extra: vec![] });
+    }
+    if rng.chance(1, 4) {
+        rows.push(RowSpec { def: DefTag::Other("strDef".into()), is: IsTag::List(vec![Some("entity".into())]), extra: vec![] });
+    }
+    // shuffle (Fisher-Yates)
+    for i in (1..rows.len()).rev() {
+        let j = rng.below(i as u64 + 1) as usize;
+        rows.swap(i, j);
+    }
+    GenGraph { rows, defined }
+}
+
+/// records over defined and undefined tag names; half of them aim at a conjunct
+pub fn gen_records(rng: &mut Rng, o: &Oracle, n: u64) -> Vec<RecSpec> {
+    let defined: Vec<String> = o.is.keys().cloned().collect();
+    let conj: Vec<String> = defined.iter().filter(|d| d.contains('-')).cloned().collect();
+    let mut recs = Vec::new();
+    for _ in 0..n {
+        let mut r: BTreeMap<String, bool> = BTreeMap::new();
+        if !conj.is_empty() && rng.chance(1, 2) {
+            let c = rng.pick(&conj).clone();
+            let parts: Vec<&str> = c.split('-').collect();
+            let spoil = rng.below(10);
+            for (i, p) in parts.iter().enumerate() {
+                if spoil == 0 && i == 0 {
+                    continue; // a part is missing
+                }
+                r.insert(p.to_string(), !(spoil == 1 && i == parts.len() - 1)); // or is not a marker
+            }
+        }
+        let k = rng.below(5);
+        for _ in 0..k {
+            let name = match rng.below(10) {
+                0..=5 if !defined.is_empty() => rng.pick(&defined).clone(),
+                6..=7 => rng.pick(UNDEF).to_string(),
+                _ => rng.pick(WORDS).to_string(),
+            };
+            r.entry(name).or_insert(rng.chance(3, 4));
+        }
+        recs.push(r.into_iter().collect());
+    }
+    recs
+}
+
+fn mentioned(o: &Oracle) -> Vec<String> {
+    let mut s: BTreeSet<String> = o.is.keys().cloned().collect();
+    s.extend(o.subs.keys().cloned());
+    s.into_iter().collect()
+}
+
+pub fn generate(ctx: &mut Ctx) {
+    let mut rng = ctx.rng.fork();
+    // hand-made shapes first: empty grid, single def, diamond, chain, undefined-only supertypes
+    let fixed: Vec<Vec<RowSpec>> = vec![
+        vec![],
+        vec![RowSpec::plain("a", vec![])],
+        vec![
+            RowSpec::plain("m", vec![]),
+            RowSpec::plain("a", vec![Some("m".into())]),
+            RowSpec::plain("b", vec![Some("m".into()), Some("zz".into()), None]),
+            RowSpec::plain("d", vec![Some("a".into()), Some("b".into())]),
+            RowSpec::plain("a-b", vec![Some("d".into())]),
+        ],
+        (0..12).map(|i| RowSpec::plain(&format!("c{i}"), if i == 0 { vec![] } else { vec![Some(format!("c{}", i - 1))] })).collect(),
+        vec![RowSpec::plain("x", vec![Some("nowhere".into())]), RowSpec::plain("y", vec![Some("nowhere".into()), Some("x".into())])],
+        // a ladder of diamonds: 2^6 paths from top to bottom
+        (0..14)
+            .map(|i| {
+                let lvl = i / 2;
+                RowSpec::plain(
+                    &format!("l{}{}", lvl, if i % 2 == 0 { "a" } else { "b" }),
+                    if lvl == 0 { vec![] } else { vec![Some(format!("l{}a", lvl - 1)), Some(format!("l{}b", lvl - 1))] },
+                )
+            })
+            .collect(),
+    ];
+    for (i, rows) in fixed.iter().enumerate() {
+        emit_graph_case(ctx, &mut rng, &format!("fixed:{i}"), rows);
+    }
+    // outside the property's scope (DESIGN: conjunct parts are defined defs): a conjunct def whose part `a`
+    // has no def.  Only the model correspondence is checked; the behaviour is counted in the distribution.
+    {
+        let rows = vec![RowSpec::plain("b", vec![]), RowSpec::plain("a-b", vec![Some("b".into())])];
+        let mut t = vec!["g".to_string()];
+        write_rows(&rows, &mut t);
+        t.push("q".into());
+        write_names(&["a".to_string(), "a-b".to_string(), "b".to_string()], &mut t);
+        t.push("r".into());
+        write_recs(&[vec![("a".to_string(), true), ("b".to_string(), true)], vec![("b".to_string(), true)]], &mut t);
+        t.push("b".into());
+        write_names(&["a".to_string(), "a-b".to_string(), "b".to_string()], &mut t);
+        ctx.case("scope:conjunct_undefined_part", &t.join(" "));
+    }
+    let n = ctx.n(220, 3000);
+    for i in 0..n {
+        let size = if i % 10 == 9 { 60 } else { 26 };
+        let g = gen_graph(&mut rng, size);
+        emit_graph_case(ctx, &mut rng, &format!("rand:{i}"), &g.rows);
+    }
+    // the real Project Haystack database
+    let total = zinc_db().symbols.len();
+    if ctx.quick() {
+        // a sample slice of symbols (against ALL symbols) and some records
+        let lo = rng.below(total as u64 - 40) as usize;
+        ctx.case("zinc:sample", &format!("zinc {lo} {} 6 {}", lo + 40, rng.next() % 100000));
+    } else {
+        let step = 50;
+        let mut lo = 0;
+        while lo < total {
+            let hi = (lo + step).min(total);
+            ctx.case(&format!("zinc:{lo}"), &format!("zinc {lo} {hi} 8 {}", rng.next() % 100000));
+            lo = hi;
+        }
+    }
+}
+
+fn emit_graph_case(ctx: &mut Ctx, rng: &mut Rng, label: &str, rows: &[RowSpec]) {
+    let o = Oracle::new(rows);
+    let mut queries = mentioned(&o);
+    queries.push("neverMentioned".into());
+    if rng.chance(1, 2) {
+        queries.push(rng.pick(WORDS).to_string());
+    }
+    queries.sort();
+    queries.dedup();
+    let recs = gen_records(rng, &o, 4);
+    let mut bases = queries.clone();
+    if bases.len() > 14 {
+        // keep the reflection part small: a random subset
+        let mut b = Vec::new();
+        for _ in 0..14 {
+            b.push(rng.pick(&bases).clone());
+        }
+        b.sort();
+        b.dedup();
+        bases = b;
+    }
+    let mut t = vec!["g".to_string()];
+    write_rows(rows, &mut t);
+    t.push("q".into());
+    write_names(&queries, &mut t);
+    t.push("r".into());
+    write_recs(&recs, &mut t);
+    t.push("b".into());
+    write_names(&bases, &mut t);
+    ctx.case(label, &t.join(" "));
+}
+
+// ------------------------------------------------------------------------------------------------
+// tests/defs/defs.zinc
+// ------------------------------------------------------------------------------------------------
+pub struct ZincDb {
+    pub rows: Vec<RowSpec>,
+    pub symbols: Vec<String>,
+    pub ns: &'static Namespace<'static>,
+    pub grid: Grid,
+}
+
+pub fn load_zinc_grid() -> Grid {
+    let text = std::fs::read_to_string("/repo/tests/defs/defs.zinc").expect("tests/defs/defs.zinc");
+    let v = libhaystack::encoding::zinc::decode::from_str(&text).expect("defs.zinc parses");
+    Grid::try_from(&v).expect("defs.zinc is a grid")
+}
+
+pub fn rows_of_grid(grid: &Grid) -> Vec<RowSpec> {
+    grid.rows
+        .iter()
+        .map(|d| {
+            let def = match d.get("def") {
+                Some(Value::Symbol(s)) => DefTag::Sym(s.value.clone()),
+                Some(_) => DefTag::Other("other".into()),
+                None => DefTag::Absent,
+            };
+            let is = match d.get("is") {
+                Some(Value::List(l)) => IsTag::List(
+                    l.iter()
+                        .map(|v| match v {
+                            Value::Symbol(s) => Some(s.value.clone()),
+                            _ => None,
+                        })
+                        .collect(),
+                ),
+                Some(Value::Symbol(s)) => IsTag::Single(s.value.clone()),
+                _ => IsTag::Absent,
+            };
+            RowSpec { def, is, extra: vec![] }
+        })
+        .collect()
+}
+
+pub fn zinc_db() -> &'static ZincDb {
+    static DB: OnceLock<ZincDb> = OnceLock::new();
+    DB.get_or_init(|| {
+        let grid = load_zinc_grid();
+        let rows = rows_of_grid(&grid);
+        let symbols = mentioned(&Oracle::new(&rows));
+        let ns: &'static Namespace<'static> = Box::leak(Box::new(Namespace::make(grid.clone())));
+        ZincDb { rows, symbols, ns, grid }
+    })
+}
+
+pub fn exec(label: &str, input: &str, out: &mut CaseOut) {
+    let mut rd = vx::Rd::new(input);
+    match rd.tok() {
+        Some("g") => {
+            let parsed = (|| {
+                let rows = read_rows(&mut rd)?;
+                if rd.tok()? != "q" {
+                    return None;
+                }
+                let queries = read_names(&mut rd)?;
+                if rd.tok()? != "r" {
+                    return None;
+                }
+                let recs = read_recs(&mut rd)?;
+                if rd.tok()? != "b" {
+                    return None;
+                }
+                let bases = read_names(&mut rd)?;
+                Some((rows, queries, recs, bases))
+            })();
+            let Some((rows, queries, recs, bases)) = parsed else {
+                out.fail("harness", "unparsable C13 input".into());
+                return;
+            };
+            let o = Oracle::new(&rows);
+            out.nontrivial = o.is.values().any(|v| !v.is_empty());
+            out.stat(&format!("defs_{}", match o.is.len() { 0 => "0", 1..=5 => "1-5", 6..=15 => "6-15", 16..=30 => "16-30", _ => "31+" }));
+            let ns = build_ns(&rows);
+            let in_scope = !label.starts_with("scope:");
+            run_queries(&rows, ns, &queries, &queries, &recs, &bases, in_scope, out);
+            unsafe { free_ns(ns) };
+        }
+        Some("zinc") => {
+            let parsed = (|| Some((rd.num::<usize>()?, rd.num::<usize>()?, rd.num::<u64>()?, rd.num::<u64>()?)))();
+            let Some((lo, hi, nrec, seed)) = parsed else {
+                out.fail("harness", "unparsable C13 zinc input".into());
+                return;
+            };
+            let db = zinc_db();
+            let hi = hi.min(db.symbols.len());
+            let queries: Vec<String> = db.symbols[lo.min(hi)..hi].to_vec();
+            let mut rng = Rng::new(seed);
+            let o = Oracle::new(&db.rows);
+            let recs = gen_records(&mut rng, &o, nrec);
+            let mut bases: Vec<String> = (0..10).map(|_| rng.pick(&db.symbols).clone()).collect();
+            for r in &recs {
+                for (k, _) in r.iter().take(2) {
+                    bases.extend(o.sup(k));
+                }
+            }
+            bases.sort();
+            bases.dedup();
+            out.nontrivial = true;
+            out.stat("defs_zinc");
+            // a fresh namespace per case (cold caches), the whole database as the fits universe
+            let ns: &'static Namespace<'static> = Box::leak(Box::new(Namespace::make(db.grid.clone())));
+            run_queries(&db.rows, ns, &queries, &db.symbols, &recs, &bases, true, out);
+            unsafe { free_ns(ns) };
+            let _ = label;
+        }
+        _ => out.fail("harness", "unparsable C13 input".into()),
+    }
+}
